@@ -455,3 +455,129 @@ PROPS["C30"] = dict(
                  "non-canonical images that decode to the SAME value are accepted by Toc::decode (CanonicalEncoding's u32 masked with 0xFF, BTreeMap entries out of order or duplicated); they are not 'a different value' and verify_checksum re-encodes canonically"],
     allowed_axioms=[],
 )
+
+PROPS["C24"] = dict(
+    corr_module="Corr.C24",
+    streams={"hist": dict(runner="C24_run_fixed", in_t="C24_in", out_t="C24_out", shard=8, imports=["Model.Capacity"])},
+    n_quick=34, n_thorough=800,
+    harness_timeout=3000,
+    rule="6 scripted histories first (the three histories that breached the capacity before fix f25e235 -- three stacked puts, put after reopen, chunked document -- which must now end in a rejection; "
+         "the witness of F-C24-4; the tier ladder through begin_batch(wal_pre_size_bytes) 4 MiB / 16 MiB with a blank-issuer ticket; an exact-fit history with a commit between the puts), "
+         "then adaptive histories of 4-22 ops on a fresh memory in 8 profiles: ticket capacity = payload end + d (d = 0, 1, 2..40, 100..12000; 100-400 KiB in the log-growth profile; none in the no-ticket profile); "
+         "puts of binary (stored as is), text (zstd) and chunked text (2500-7000 chars: empty parent + separately compressed chunks), 1 in 14 with an embedding, sizes aimed with live counters at limit-2..limit+2 "
+         "of what is really left (max(payload end, data end) + pending stored bytes: what the check counts) and of what the check before the fix looked at (payload end + stored size: a revert accepts those), "
+         "at half of it, tiny, and 200-4000; 15-60 KiB puts to make the log grow and trigger automatic checkpoints; commits at random points (few in the stacking profile, many in the commit-heavy one), "
+         "tickets that raise / keep / drop (None, 0 -> tier capacity) / lower the capacity, re-used sequence numbers, blank issuer; close + reopen; log pre-sizing. Stored sizes are read from the implementation "
+         "(a probe memory whose capacity equals its payload end answers every put with CapacityExceeded{required}) and re-checked against frame.payload_length after each commit. Compared after every op: "
+         "Ok / CapacityExceeded{current, limit, required} / TicketRequired / TicketSequence, cached_payload_end, data_end, stats().capacity_bytes, stats().payload_bytes, vec_enabled, largest frame payload end. "
+         "Oracle on the implementation: after every commit max(payload_offset + payload_length) <= capacity_bytes (payload end as the code measures it, minus the bytes log growth moved it since creation; the plain absolute "
+         "reading and the byte-budget reading are reported in the text and as tags); an accepted put never has max(payload end, data end) + pending stored bytes + its own stored bytes > capacity; a rejection carries "
+         "{current = that tail, limit, required = whole-payload size or, from the second check, parent + chunk bytes} and happens only when one of the two checks fails; a rejected put / ticket leaves file bytes, header, "
+         "log counters, data_end, payload end, generation, frame count and stats unchanged. non-trivial = at least one accepted put, one put rejected with CapacityExceeded and one commit; distinct by digest of the op list",
+    level_text="Unbounded theorems over a state machine that follows put_internal's capacity check as it is since fix f25e235 (payload_tail = max(cached_payload_end, data_end) + pending_payload_bytes; check on the whole-payload "
+               "size, second check on the bytes really stored = parent + chunks; counter reset by apply_records), capacity_limit/tier, ensure_mutation_allowed, apply_ticket, apply_records' payload placement, rebuild_indexes' "
+               "data_end reset, grow_wal_region, ensure_wal_capacity and open: for ALL histories of puts (any stored sizes, chunked or not, any log growth, with or without automatic checkpoint), commits, tickets, reopen and log "
+               "pre-sizing the payload end (cached and real) stays within the capacity, in three readings (growth-corrected absolute end, absolute end while the log has its initial size, byte size of the region), what is pending "
+               "fits too, a put that would exceed the limit fails with CapacityExceeded{tail, limit, required}, and a rejected put returns the state it got -- except that a put carrying an embedding has already run enable_vec "
+               "(refuted + proved outside: known finding F-C24-4). The refutations of the check before the fix are kept as historical lemmas about step_old.",
+    level_note="Three defects found by this check were repaired in f25e235 (pending bytes not counted; projection from cached_payload_end while the commit writes from data_end; chunk sizes never checked); F-C24-4 "
+               "(rejected-embedded-put-enables-vec) remains a known finding. Trusted: Coq kernel + vm_compute; hand-written model (tied by correspondence op by op); stored sizes (zstd, chunk planner), log growth and "
+               "automatic-checkpoint timing are inputs observed on the implementation and universally quantified in the theorems; data_end after open is an input (hypothesis: not before the frames, checked on every reopen); "
+               "u64 saturating arithmetic modelled unbounded; updates/deletes and vacuum are not in the histories. The invariant is stated for the payload end corrected for log growth: with the plain absolute offset the code "
+               "uses, a log growth alone moves the end beyond a ticket capacity (Example C24_growth_moves_the_absolute_end). ensure_wal_capacity still leaves cached_payload_end unshifted (modelled as is; harmless for the "
+               "capacity check since the tail takes max with data_end).",
+    trusted_base=["stored sizes of payloads and chunks, log growth per call, automatic checkpoints and data_end after open are oracle inputs read from the implementation (probe memory, cfg(memvid_verif) hooks data_region/header_fields/wal_stats)",
+                  "lex feature on (default build): a commit with frame records ends with data_end = cached_payload_end (rebuild_indexes)"],
+    assumptions=["tickets_ok: a ticket is applied only when what is stored and promised fits the capacity it grants, which is at least 69632 (needed: Example C24_ticket_hypothesis_needed); data_end at open is not before the frames",
+                 "sizes below 2^64"],
+    allowed_axioms=[],
+)
+
+PROPS["C15"] = dict(
+    corr_module="Corr.C15",
+    # after the repair of build_timeline is applied to /repo: switch the runners of "hist" and
+    # "table" to C15_hist_run_fixed / C15_table_run_fixed and set F-C15-1 to "fixed"
+    streams={
+        "hist": dict(runner="C15_hist_run_fixed", in_t="C15_in", out_t="C15_out", shard=10, imports=["Model.Timeline"]),
+        "table": dict(runner="C15_table_run_fixed", in_t="C15_table_in", out_t="C15_table_out", shard=10),
+        "track": dict(runner="C15_track_run", in_t="C15_track_in", out_t="C15_track_out", shard=150),
+    },
+    n_quick=10, n_thorough=400,
+    harness_timeout=3000,
+    rule="n histories (+ the recorded witness of F-C15-1 first) of 8-24 ops on a real memory: puts with explicit timestamps from a per-history pool of 2-5 values (many ties) drawn from "
+         "{-1.7e9,-1000,-7,-1,0,1,2,5,50,51,100,1.7e9} and, in one profile of four, i64::MIN, MIN+1, MAX-1, MAX; roles Document / ExtractedImage (with parent_id = latest committed document) / "
+         "chunked document (2.6-5.6 kB of prose, 3-5 chunk frames sharing its timestamp); update_frame with and without payload, with and without a new timestamp, keeping or changing the role; delete_frame; "
+         "targets among committed frames of any role and ids that do not exist; commit, reopen, doctor (8 option sets, non dry-run); four profiles (images always later than every document = outside the known class; "
+         "random roles; no images; extreme timestamps). Snapshots on the live handle (after commits and with operations still pending), after reopen and after doctor, each closing with commit -> reopen -> doctor; "
+         "per snapshot 15-18 timeline queries: unrestricted forward and reverse, since/until at, just below and just above existing timestamps, a one-timestamp window on a tie, an empty window, limits 1, random, n-1, n, n+1, u64::MAX, "
+         "limit combined with a bound, reverse at random. Compared: the frame table (id, timestamp, role, status), time-index presence and the (frame id, timestamp) list of every query (stream hist, model replays the acknowledged ops), "
+         "and the same queries with the model fed the observed table (stream table). Property oracle on the implementation's answers only: every entry an active Document/ExtractedImage frame with its own timestamp inside the inclusive bounds, no id twice, "
+         "unlimited = all eligible frames in range, ascending/descending (timestamp, id), limited = first min(k, n) entries of the unlimited answer, reverse = exact reversal. "
+         "Stream track: 12 per history, 0-14 entries over small/extreme/random timestamp and id pools through append_track+read_track, or written raw (sorted, one adjacent swap, a duplicate, random) and read. "
+         "non-trivial = at least 3 eligible frames and a time index (hist/table), at least 2 entries (track); distinct by BLAKE3 of the input term",
+    level_text="Unbounded theorems over a line-by-line model of build_timeline, the time-index part of rebuild_indexes and append_track/read_track (entry level), on top of a table-level model of put / chunked put / update / delete / commit / reopen / doctor. "
+               "Code as it is: the property is REFUTED (F-C15-1: active ExtractedImage frames are appended after the sorted index and never re-sorted) and PROVED for every history and query outside the known class, which is exact (inside it the unrestricted query always deviates); "
+               "in particular it holds for every memory without active extracted images. Repaired code (one sort of the merged list, model build_timeline_fixed): for EVERY history and EVERY query, with no side condition, timeline = limit/reverse/filter of the eligible frames "
+               "(Active, role Document or ExtractedImage) sorted by (timestamp, id); chronological or exactly reversed; each eligible frame in range exactly once and nothing else; since/until inclusive; limit k = first min(k, n) entries; reverse = exact reversal; "
+               "the insertion sort of the model equals any function returning a sorted permutation, so it equals Rust's sort_by_key. Tied to the code by histories on real memories compared table by table and query by query.",
+    level_note="Property as stated is REFUTED on the unchanged tree (known finding F-C15-1, narrow class extracted-image-order); proved outside it; the repaired model is proved in full and its runners (C15_hist_run_fixed / C15_table_run_fixed) are ready. "
+               "Trusted: Coq kernel + vm_compute; hand-written model (tied by correspondence); the time index is modelled as an entry list (the byte layout of the track belongs to C30); frame_preview / payload reads are assumed to succeed; "
+               "the no-index branch of build_timeline (reached only after commit_skip_indexes, C40) is modelled but outside the op language of the theorem, as are vacuum (C42) and crash recovery (C02-C04).",
+    trusted_base=["frame ids equal positions in toc.frames (C06): derived inside the model from apply_records' `frame_id = toc.frames.len()`, observed in the correspondence (frame_by_id(i).id = i)",
+                  "time index present <=> Stats.has_time_index; the index content is not readable through the public API: it is observed through the order of the unrestricted timeline (hook wanted: verif_hooks::time_index_entries)"],
+    assumptions=["no I/O errors; payloads readable (frame_preview succeeds)",
+                 "default cargo features (temporal_track off: no temporal filter in TimelineQuery)",
+                 "op language: put (any role, with chunks), update_frame, delete_frame, commit, reopen, doctor; commit_skip_indexes / finalize_indexes / vacuum / crash are not in it",
+                 "code as it is: known finding outside which the theorem holds (known_class = the list 'active documents sorted by (timestamp, id), then active extracted images in id order' is not sorted)"],
+    allowed_axioms=[],
+)
+
+PROPS["C08"] = dict(
+    corr_module="Corr.C08",
+    streams={"hist": dict(runner="C08_run", in_t="C08_in", out_t="C08_out", shard=3, imports=["Model.Store", "Model.Reads"])},
+    n_quick=24, n_thorough=400,
+    harness_timeout=3000,
+    rule="histories of 8-30 ops on a real memory: puts (short text / chunked text >= 2500 chars / binary; with or without a 4-dimensional embedding; explicit uri reused across frames; option fields; rarely instant-indexed or with default options), "
+         "update_frame with and without payload, with random subsets of the ten option fields, with or without an explicit embedding, on plain and on chunked documents and on missing / inactive ids, delete_frame likewise, commit, reopen, exit-without-commit + reopen; "
+         "after every quiescent point (and at random points with uncommitted changes, oracle only) EVERY read API: timeline both directions with child frames, search_vec / vec_search_with_embedding / search_adaptive (enabled and disabled) at stored embeddings, "
+         "search for a word common to all text frames (enumerates the engine) and for the unique words of deleted / superseded / updated / random frames with and without the sketch pre-filter, a uri: field query, "
+         "ask in retrieval-only mode (context_only, no embedder: needs no model) incl. its timeline fallback, ask with a stub embedder (hybrid, with and without adaptive retrieval), frame_by_uri of every explicit uri, an unused uri and default uris of inactive frames; "
+         "compared with the model: per-op result / frame_count / next_frame_id, at every read point the time-index ids, vector-index ids, engine document ids, frame_by_uri results, and the final table with status / supersedes / superseded_by / parent and the ten option fields of every Document frame; "
+         "impl oracle (own reference table): a read API returned an id whose committed reference status is not Active (inactive-served) or a chunk whose document is not Active (orphan-chunk-served), frame_by_uri is not the newest active version, status / supersession links differ from the acknowledged calls, an unset option field of an update differs from the old version; "
+         "non-trivial = a delete / update was committed, some frame is inactive and at least three read APIs returned hits; distinct by digest of the op list",
+    level_text="Unbounded theorems over a line-by-line model of update_frame (ten inheritance rules, payload reuse, carried embedding), delete_frame, apply_records' mark_frame_deleted / mark_frame_superseded / remove_frame_from_indexes, rebuild_indexes with the active-only filters of rebuild_tantivy_engine / build_vec_artifact / the time index, frame_by_uri, timeline, and search / vector search / adaptive search / ask around engine oracles: for every history and every intermediate state the three index sets hold Active committed frames only (no side condition), hence no read path names a non-Active frame; a committed delete / update leaves f non-Active forever with the successor link, frame_by_uri is exactly last-active-else-last, unset option fields equal the old values. Model tied to the code by histories on real memories comparing index sets, uri lookups, the table and the inherited fields, plus an independent reference table checked against every read API.",
+    level_note="Property REFUTED in one class, recorded as known finding orphan-chunk-served: chunk frames of a deleted / superseded chunked document stay Active and are served by search / ask (C08_chunks_outlive_their_document_refuted); outside that class every index member is live (C08_index_members_live_outside_known). Partial: Tantivy's search, the L2 ranking, the adaptive cut-off, query evaluation and ask's fusion are Section variables assumed only to return members of what they are given; the end-to-end theorem has C01's side condition run_ok (no update of a DocumentChunk frame); engine documents are guaranteed Active only when no instant-indexed put waits for its commit (instant_index adds a temporary document under the LOG SEQUENCE number, wiped by the full rebuild of the next commit); the legacy LexIndex fallback and the filter-only fallback (reached only when the Tantivy engine is missing or fails; the latter scans all frames without a status filter) are not modelled. Observed, not flagged: an update that replaces the payload but leaves search_text unset inherits the OLD search text (rule 7), so the new version is found by the old content's words; a payload-less update re-appends the uri / metadata lines to the inherited search text.",
+    trusted_base=["engine oracles: Tantivy search_documents, VecIndex::search, find_adaptive_cutoff, ParsedQuery::evaluate / snippet slices / ACL per-hit filters, ask's RRF fusion and re-ranking (assumed: outputs are members of their inputs)",
+                  "oracle inputs read from the implementation: auto-checkpoint timing and extra log records (cfg(memvid_verif) wal_stats hook), number of chunk frames, the option fields of frames created by put, whether a frame's index text holds the probe word",
+                  "the engine's document set is observed through search for a probe word present in every text payload (top_k 5000, sketch filter off)"],
+    assumptions=["engine oracles return members of their index sets", "no update of a DocumentChunk frame (run_ok, as C01) for the end-to-end theorem", "no instant-indexed put pending for the lexical part", "no I/O errors"],
+    allowed_axioms=[],
+)
+
+PROPS["C14"] = dict(
+    corr_module="Corr.C14",
+    streams={"hist": dict(runner="C14_run", in_t="C14_in", out_t="C14_out", shard=4, imports=["Model.Store", "Model.VecStore"])},
+    n_quick=30, n_thorough=600,
+    harness_timeout=3000,
+    rule="histories of 6-34 ops on a real memory (default features, dimension 4): put_with_embedding / plain puts (binary, text), put_with_chunk_embeddings on documents split into 2-6 chunks with 0, 1, n-1, n, n+2 chunk embeddings and with / without a parent embedding, "
+         "chunk embeddings offered for an unsplit document, update_frame with / without payload and with / without explicit embedding (targets biased to embedded active frames, also inactive and missing ids), delete, enable_vec, commit, vacuum, "
+         "close+reopen, exit-without-commit+reopen, doctor with all 16 option sets; payloads of 47-52 KB cross the automatic checkpoint, 66-80 KB grow the log; repeated embeddings, -0.0 and 1e6-scale components; "
+         "after EVERY op: Stats.vec_enabled / has_vec_index / vector_count and the (frame, embedding bits) pairs reachable by search_vec(k = 10^6) + frame_embedding are compared with the model; at every commit point the property oracle compares "
+         "an independent reference map (id -> embedding bits, active flags) with the reachable set (symmetric difference), the bits, vector_count, search_vec at each frame's own embedding with k = index size (distance 0), frame_embedding of every other frame = None; "
+         "non-trivial = an embedded frame survived a commit and an embedded frame was updated or deleted; distinct by digest of the op list",
+    level_text="Unbounded theorem over the vector-index model on top of the frame-table model (Model/VecStore.v over Model/Store.v): for every history of embedded / chunk-embedded / plain puts, updates with or without explicit embedding, deletes, enable_vec, commits, "
+               "vacuum, reopen, crash+replay and doctor, and every timing of automatic checkpoints and log growth, outside the two known-finding classes, whenever nothing is pending the loaded index is exactly the list of (active frame, embedding given to it) in frame order "
+               "(given = put embedding, i-th chunk embedding, explicit update embedding, else the updated frame's), frame_embedding answers that embedding and nothing for other frames, and update_frame carries exactly the given embedding; the property as stated is refuted by "
+               "doctor{rebuild_vec_index} (index emptied) and by exit-without-commit before the vec manifest was ever written (replay drops the pending embeddings), both proved to be inside known_class with vm_compute witnesses. Default features have the single representation Uncompressed.",
+    level_note="Property as stated is REFUTED in two classes recorded as known findings (doctor-vec-rebuild, crash-before-vec-manifest); proved outside them. Trusted: Coq kernel + vm_compute; hand-written model of build_vec_artifact / apply_records' embedding path / rebuild_indexes / "
+               "enable_vec / update_frame's carried embedding / load_vec_index_from_manifest / vacuum / doctor's apply_pending_rebuilds / grow_wal_region's TOC rewrite (tied by per-op observations on real memories); the frame-table model and its side condition are C01's; "
+               "automatic-checkpoint timing, log growth and chunk counts are oracle inputs observed on the implementation and universally quantified in the theorem; search_vec's scan of the Uncompressed list is C13's. HNSW (features vec / hnsw_bench, >= 1000 vectors) and PQ segments "
+               "(parallel_segments) are outside the default configuration: described in Properties/C14.v, not modelled.",
+    trusted_base=["oracle inputs of each op (automatic checkpoint happened, extra log records, number of chunks, log region grew) are read from the implementation through cfg(memvid_verif) hooks",
+                  "embeddings are compared as f32 bit patterns; the index is observed through search_vec with k = 10^6 and frame_embedding"],
+    assumptions=["default cargo features (lex, pdf_extract, simd): VecIndex::Uncompressed is the only representation of toc.indexes.vec",
+                 "every embedding has at least one component (emb_ok); an empty vector is accepted by put and, stored next to real ones, makes search_vec panic in l2_distance (observation, not part of this property's classes)",
+                 "no I/O errors; update/delete targets are Document frames (C01's side condition)",
+                 "known findings outside which the theorem holds: doctor with rebuild_vec_index; exit without commit while the vec manifest exists only in memory and a pending record carries an embedding"],
+    allowed_axioms=[],
+)
